@@ -13,12 +13,15 @@
       W defined from scratch (`wpwEntry`, `wpmEntry`), provided observations whose span leaves the frame
       range carry zero precision — which is what `MlpgAdjust::create` arranges (`Jb/Proofs/Assemble.lean`;
       this is where the latent `break` of DESIGN.md F8 is shown harmless).
-  What is *not* a theorem (checked on every executed case): positivity of the pivots.
+    * positive definiteness ⇒ every pivot is positive (`Jb/Proofs/Pivots.lean`), so the solver's hypothesis
+      holds for the MLPG system (positive static precisions); the capstone combining all of this is
+      `Jb/Proofs/MlpgMain.lean`.
 -/
 import Jb.Proofs.Mask
 import Jb.Proofs.Ldl
 import Jb.Proofs.Likelihood
 import Jb.Proofs.Assemble
+import Jb.Proofs.Pivots
 import Mathlib.Tactic.NormNum
 
 set_option linter.unusedSectionVars false
@@ -72,6 +75,13 @@ theorem solve_solves (m : MlpgMatrix K) (hw : 1 ≤ m.width) (hr : m.wum.length 
     m.solve.length = m.wuw.length ∧
     ∀ t, t < m.wuw.length → bandMulVec m.width m.wuw m.solve t = m.wum.getD t 0 :=
   ldl_solves m.width hw m.wuw m.wum hr hrow hpiv
+
+/-- **Pivots are positive** for a positive definite band matrix — so the solver never divides by zero on
+    an MLPG system with positive static precisions. -/
+theorem pivots_positive (w : Nat) (hw : 1 ≤ w) (rows : List (List K)) (hrow : ∀ row ∈ rows, row.length = w)
+    (hpd : ∀ x : List K, x.length = rows.length → (∃ t, t < rows.length ∧ x.getD t 0 ≠ 0) → 0 < bandQuad w rows x) :
+    ∀ t, t < rows.length → 0 < bandAt (ldlRows w rows) t 0 :=
+  ldl_pivots_pos w hw rows hrow hpd
 
 /-- Without GV the generated parameter sequence is that solution. -/
 theorem par_no_gv (m : MlpgMatrix K) [Transc K] [Consts K] [MlpgConsts K] (vi : Nat) (w : K) (durs : List Nat) (mask : List Bool) :
